@@ -239,7 +239,7 @@ def encode_ordered(v):
 # ----------------------------------------------------------------------------- metafiles
 
 def ref_metafile(name, files, pl, version, single=False, trailing_pad=False,
-                 with_length=False, extra=None, info_extra=None, block=BLOCK, attrs=None):
+                 with_length=False, extra=None, info_extra=None, block=BLOCK, attrs=None, pad_to=None):
     """Reference encoder: files = list of (path components tuple, bytes) in the order the
     v1 list shall have (callers pass them sorted as BEP 52 requires for hybrids).
     version 1 | 2 | 3. Returns the metafile as a python dict (use encode())."""
@@ -262,6 +262,12 @@ def ref_metafile(name, files, pl, version, single=False, trailing_pad=False,
                 if version == 3 and g and (not last or trailing_pad):
                     entries.append({"attr": "p", "length": g, "path": [".pad", str(g)]})
                     stream += bytes(g)
+                elif version == 1 and pad_to and not last and gap(pad_to, len(stream)):
+                    # a v1 encoder that aligns files to `pad_to` bytes, which need not be the piece
+                    # length (BEP 47 padding entries that end inside a piece)
+                    g2 = gap(pad_to, len(stream))
+                    entries.append({"attr": "p", "length": g2, "path": [".pad", str(g2)]})
+                    stream += bytes(g2)
             info["files"] = entries
             info["pieces"] = v1_pieces(stream, pl)
     if version in (2, 3):
